@@ -20,6 +20,15 @@ CHECKS = {
     "C04": dict(ref="6/C04", tech="TLC on the slot-allocation transcription (CompilerSlots.tla: CellsDisjoint, with the pre-repair variant as negative control) + TLC-generated lattices replayed on the real library; recorded layouts and read addresses (hook H2) validated by TLC (LayoutOK / ReadsRowOK)",
                 text="Every reduced lattice over <=5 classes (thorough: 6) x placement of up to 3-4 one-parameter methods (+ random multi-methods), registered with complete and with direct-only base lists: the installed layout must give every acceptable (class, method, parameter) its own cell inside the dispatch data, outside every dispatch table; every address resolve() reads must be that cell or inside the method's own table. Thorough re-executes under AddressSanitizer.",
                 note="read addresses are reported by hook H2 (add-only call sites in core.hpp); the policy's id->vptr lookup tables are covered by C05/C15"),
+    "C07": dict(ref="6/C07", tech="TLC on Yomm2MC (histories over pools; FreshEquivalence, TypeOK) generating every history up to the bound and random simulations; histories replayed on the real library, every post-update observation validated by TLC against the oracle on the current catalogs",
+                text="Every history of <=5 operations (thorough: 6) over a pool of class records, methods and definitions, TLC-simulated histories of 15 operations and guided random histories of up to 60 operations on random registries are replayed under eager custom, std, projected and deferred type ids, with and without hash; after every update (and after a second, change-free update) all outcome tables and next slots must equal the oracle evaluated on the catalogs as they are then.",
+                note="registration objects' destructors are replaced by direct catalog removal; the dlopen/dlclose scenario is not built"),
+    "C10": dict(ref="6/C10", tech="TLC trace validation of the same scripts under each RTTI flavour (std, custom, projected many-to-one, deferred) against the one oracle",
+                text="The C01 universes (sampled in quick), the Yomm2MC histories and random registries are executed under 13 policies covering the four RTTI facet shapes, with and without hash, with three consecutive updates; projected policies register and use three ids per class. Every trace must satisfy the same specification.",
+                note="std ids are type_info addresses of a pool of 24 real classes"),
+    "C14": dict(ref="6/C14", tech="TLC: IsolationProp action property on Yomm2MC with two policies; interleaved multi-policy histories replayed on policy tuples obtained by rebind/replace/remove, every policy re-observed after every step and validated by TLC",
+                text="Every interleaved history of <=4 operations over two policies and guided random histories over 2-3 policies sharing class ids: after every single operation all policies' outcome tables and next slots are re-observed and must still match their own catalogs; handler isolation is exercised with a returning handler on one policy only.",
+                note="hash parameters and vptr validity are observed through dispatch results, not compared directly"),
     "C08": dict(ref="6/C08", tech="TLC: PresentationInvariant over every legal presentation (GenLat.tla) and CellsDisjoint (CompilerSlots.tla); every presentation of every graph <=4 classes (thorough: 5) replayed on the real library, tables/next/layout validated by TLC against the closure of the listed relation",
                 text="All 1,088 (graph, listed-bases) presentations over <=4 classes (thorough: 32,768 over 5), each also split over several records, duplicated and reordered, with a probe method on every class and a random multi-method: outcome tables over all acceptable tuples, next targets and slot layout must be those of the closure of the listed relation.",
                 note="record splitting / duplication / ordering is randomized per presentation, not exhaustive"),
